@@ -95,7 +95,27 @@ def ev(e, env, enum_prefixes):
         return True
     if isinstance(e, ast.IfExp):
         return ev(e.body, env, enum_prefixes) if ev(e.test, env, enum_prefixes) else ev(e.orelse, env, enum_prefixes)
+    if isinstance(e, ast.Call) and unparse(e.func) in env.get("__calls__", {}):
+        return env["__calls__"][unparse(e.func)](*[ev(a, env, enum_prefixes) for a in e.args])
     raise AnalysisError(f"finite-eval: unsupported expression {unparse(e)[:60]}")
+
+
+class _Break(Exception):
+    pass
+
+
+class _Continue(Exception):
+    pass
+
+
+def _bind(target, value, env):
+    if isinstance(target, ast.Name):
+        env[target.id] = value
+    elif isinstance(target, (ast.Tuple, ast.List)) and isinstance(value, (list, tuple)) and len(value) == len(target.elts):
+        for t, v in zip(target.elts, value):
+            _bind(t, v, env)
+    else:
+        raise AnalysisError("finite-eval: unsupported loop / assignment target")
 
 
 def run(stmts, env, enum_prefixes):
@@ -113,6 +133,25 @@ def run(stmts, env, enum_prefixes):
             continue
         elif isinstance(s, ast.Pass):
             continue
+        elif isinstance(s, ast.For) and not s.orelse:
+            # a loop over a finite literal / evaluated table, unrolled
+            seq = ev(s.iter, env, enum_prefixes)
+            if not isinstance(seq, (list, tuple)):
+                raise AnalysisError("finite-eval: for-loop over a non-literal sequence")
+            for item in seq:
+                _bind(s.target, item, env)
+                try:
+                    run(s.body, env, enum_prefixes)
+                except _Break:
+                    break
+                except _Continue:
+                    continue
+        elif isinstance(s, ast.Break):
+            raise _Break()
+        elif isinstance(s, ast.Continue):
+            raise _Continue()
+        elif isinstance(s, ast.Assign) and len(s.targets) == 1 and isinstance(s.targets[0], (ast.Tuple, ast.List)):
+            _bind(s.targets[0], ev(s.value, env, enum_prefixes), env)
         else:
             raise AnalysisError(f"finite-eval: unsupported statement {type(s).__name__}")
 
